@@ -218,8 +218,14 @@ def _leaf_leaves(leaf, acc):
             leaves_of(leaf[3], acc)
             return
         if leaf[2] == 'op':
-            for a in leaf[3][1:]:
-                leaves_of(a, acc)
+            cached = _OP_LEAVES.get(leaf[3])
+            if cached is None:
+                s = set()
+                for a in OPS[leaf[3]][1:]:
+                    leaves_of(a, s)
+                cached = frozenset(s)
+                _OP_LEAVES[leaf[3]] = cached
+            acc |= cached
             return
     acc.add(leaf)
 
@@ -381,16 +387,33 @@ def _xor_bit(x, y):
     return None
 
 
+# Opaque operation leaves are hash-consed: the payload (op, a, b) lives in OPS under a content key, so that nested
+# opaque expressions stay small tuples (Python neither caches tuple hashes nor shares repr work).
+OPS = {}
+_OP_LEAVES = {}
+
+
+def intern_op(payload):
+    import hashlib
+    key = hashlib.sha1(repr(payload).encode()).hexdigest()[:20]
+    OPS[key] = payload
+    return key
+
+
 def size_capped(x, cap=4000):
-    """Number of nodes of a nested tuple, counting stops at `cap`."""
+    """Number of distinct nodes (shared sub-terms counted once) of a nested tuple; counting stops at `cap`."""
     n = 0
     stack = [x]
+    seen = set()
     while stack:
         y = stack.pop()
-        n += 1
-        if n > cap:
-            return n
         if isinstance(y, tuple):
+            if id(y) in seen:
+                continue
+            seen.add(id(y))
+            n += 1
+            if n > cap:
+                return n
             stack.extend(y)
     return n
 
@@ -415,10 +438,10 @@ def bitop(op, a, b):
     for x, y in zip(ba, bb):
         r = f(x, y)
         if r is None:
-            if size_capped(a) + size_capped(b) > 4000:
+            if size_capped(a, 20000) + size_capped(b, 20000) > 20000:
                 raise Unsupported('bitwise expression over symbolic values grows without bound (a checksum or hash computed inside the analysed code?)')
             args = tuple(sorted((a, b), key=repr))
-            leaf = ('opq', w, 'op', (op,) + args)
+            leaf = ('opq', w, 'op', intern_op((op,) + args))
             return ('bv', w, tuple((leaf, i) for i in range(w)))
         out.append(r)
     return mk_bv(w, out)
@@ -763,7 +786,10 @@ def show_leaf(leaf):
         if leaf[2] in ('trunc', 'wrap'):
             return '%s%d(%s)' % (leaf[2], leaf[1], show_term(leaf[3]))
         if leaf[2] == 'op':
-            return '%s(%s)' % (leaf[3][0], ', '.join(show_term(a) for a in leaf[3][1:]))
+            pl = OPS.get(leaf[3])
+            if pl is None:
+                return 'op#%s' % leaf[3][:6]
+            return '%s(%s)' % (pl[0], ', '.join(show_term(a) for a in pl[1:]))
         return 'opq:%s' % (leaf[2],)
     return repr(leaf)
 
